@@ -78,7 +78,7 @@ def wrap(ctx, algopy, arg, A):
     if ctx.mode == 'sym':
         a = npx.sarr(np.array(A, dtype=object), complex if arg.cplx else float)
     else:
-        a = np.array(np.asarray(A).tolist(), dtype=complex if arg.cplx else float).reshape(np.shape(A))
+        a = np.array(np.asarray(A).tolist(), dtype=complex if arg.cplx else float).reshape(np.shape(A)).copy()
     return algopy.UTPM(a) if arg.kind == 'utpm' else a
 
 
